@@ -72,7 +72,7 @@ def finish_with(prop, tier, seed, t0, records, errors, extra, assumptions, scrip
         errors.append(err)
     else:
         for i, fl in enumerate(b['failures']):
-            records.append(dict(name=f'{prop}/bounded::{fl["kind"]}#{i}', kind='bounded', verdict='failed', backend='bounded', ms=0, inputs=None,
+            records.append(dict(name=f'{prop}/bounded::{fl["kind"]}#{i}', kind='bounded', verdict='unknown' if fl.get('undecided') else 'failed', backend='bounded', ms=0, inputs=None,
                                 witness=fl.get('witness'), replay=dict(reproduced=True, stdout=json.dumps(fl)[:3000]), detail=fl['kind']))
         binfo = dict(evaluations=b['evaluations'], distinct_nontrivial=b['distinct_nontrivial'], rule=' || '.join(b['rules']), label='bounded (never counted as proved)',
                      details=b['extra'], samples=[dict(bounded_script=s) for s in scripts])
